@@ -547,6 +547,27 @@ if os.path.isdir(simd_dir) and os.path.exists(os.path.join(repo, "simd/nasm/jsim
                 fr = Fraction(dec)
                 SIMD_FIX.append(("%s-%s:%s" % (asm, isa, name), int(val), fr.numerator, fr.denominator))
 
+# ---------------------------------------------------------------- SIMD kernels: plane-pointer advance per loop iteration
+# every `add <reg>, [byte] <expr> ; inptr0|inptr1|inptr2|outptr0|outptr1|outptr2` (the planar side of the colour and merged
+# kernels) must advance by exactly one vector of the file's ISA, in BOTH RGB_PIXELSIZE branches
+ADV = []
+if os.path.isdir(simd_dir):
+    need_n = {"jccolext": 3, "jcgryext": 1, "jdcolext": 6, "jdmrgext": 6}
+    for isa, vec, size in (("avx2", "SIZEOF_YMMWORD", 32), ("sse2", "SIZEOF_XMMWORD", 16)):
+        for base_, nmin in need_n.items():
+            text = rd("simd/x86_64/%s-%s.asm" % (base_, isa))
+            found = re.findall(r"^\s*add\s+\w+,\s*(?:byte\s+)?(\S+)\s*;\s*((?:in|out)ptr[0-2])\s*$", text, re.M)
+            if len(found) < nmin:
+                die("%s-%s.asm: only %d plane-pointer advances found, expected at least %d" % (base_, isa, len(found), nmin))
+            found = [(e_, t_) for e_, t_ in found if e_ != "SIZEOF_JSAMPROW" and t_.startswith("in" if base_[1] == "d" else "out")]
+            if len(found) < nmin:
+                die("%s-%s.asm: only %d plane-pointer advances found, expected at least %d" % (base_, isa, len(found), nmin))
+            for expr, tag in found:
+                mm = re.fullmatch(r"(?:(\d+)\*)?SIZEOF_([XY])MMWORD", expr)
+                if not mm:
+                    die("%s-%s.asm: cannot evaluate the advance '%s' of %s" % (base_, isa, expr, tag))
+                ADV.append((int(mm.group(1) or 1) * (32 if mm.group(2) == "Y" else 16), size))
+
 # ---------------------------------------------------------------- output
 def zl(xs):
     return "[" + "; ".join("(%d)" % x if x < 0 else str(x) for x in xs) + "]"
@@ -644,3 +665,5 @@ P("   (kind, a, c, la, lc): start = a*(MAX+1) + c*CENTER, length = la*(MAX+1) + 
 P("   kind 0: zero, 1: table[i] = i, 2: MAX, 3: copy of sample_range_limit[0 .. length) *)")
 P("Definition range_limit_alloc : Z * Z := (5, 1).")
 P("Definition range_limit_ops : list (Z * Z * Z * Z * Z) :=\n  [(0, (-1), 0, 1, 0); (1, 0, 0, 1, 0); (2, 0, 2, 2, (-1)); (0, 2, 1, 2, (-1)); (3, 4, 0, 0, 1)].")
+P("\n(* SIMD colour / merged kernels: (advance of a plane pointer per loop iteration, vector size of the file) *)")
+P("Definition simd_plane_ptr_advances : list (Z * Z) := [%s]." % "; ".join("(%d, %d)" % a for a in ADV))
